@@ -361,7 +361,18 @@ func epBatch(c *RunCtx, cfg batchCfg) *Result {
 		m := s.W.Metrics()
 		if int(m.Completed()) != exits || int(m.Failed()) != fails || int(m.Successful()) != exits-fails {
 			e.Fail("C07", "metrics", "", fmt.Sprintf("%s: Completed=%d Successful=%d Failed=%d; finished invocations %d of which %d failed", cfg, m.Completed(), m.Successful(), m.Failed(), exits, fails))
+			e.Fail("C17", "completed", "batch", fmt.Sprintf("%s: Completed=%d Successful=%d Failed=%d; finished invocations %d of which %d failed", cfg, m.Completed(), m.Successful(), m.Failed(), exits, fails))
 		}
+		acc := 0
+		for _, r := range k.Recs[:idx] {
+			if r.Submitted && r.OK {
+				acc++
+			}
+		}
+		if int(m.Submitted()) != acc {
+			e.Fail("C17", "submitted", fmt.Sprintf("batch/%v/%v", cfg.WK, cfg.QK), fmt.Sprintf("%s: Submitted=%d, accepted submissions %d (rejected ones must not count)", cfg, m.Submitted(), acc))
+		}
+		e.ntFor("C17")
 		emu.Lock()
 		for _, we := range wErrs {
 			found := false
